@@ -130,12 +130,14 @@ def r05_1(ctx):
         for p in Sym(h, copies=True).paths():
             if p.end[0] != "ret":
                 continue
-            assign, _ = path_assignment(p, canon)
+            assign, other = path_assignment(p, canon)
             ret = p.end[1]
             d = dict(ret[3]) if ret[0] == "agg" else {}
             primary = mentions_field(d.get("0", ()), "log_override", "action::log_override::LogOverride") and d.get("2") == ("const", True) and mentions_field(d.get("1", ()), "rule_id")
             fallback = mentions_field(d.get("0", ()), "fallback_log_override") and d.get("2") == ("const", False) and mentions_field(d.get("1", ()), "fallback_rule_id")
             for full in consistent_assignments(assign, ["E", "X", "C"]):
+                if not consistent_with(other, full, canon):
+                    continue
                 rows += 1
                 want = admits(full)
                 if want and not primary:
@@ -151,7 +153,7 @@ def r05_1(ctx):
         for p in Sym(k, copies=True).paths():
             if p.end[0] != "ret":
                 continue
-            assign, _ = path_assignment(p, canon)
+            assign, other = path_assignment(p, canon)
             ret = p.end[1]
             d = dict(ret[3]) if ret[0] == "agg" else {}
             primary = mentions_field(d.get("0", ()), "status_code") and not mentions_field(d.get("0", ()), "fallback_status_code") and mentions_field(d.get("1", ()), "rule_id") and not mentions_field(d.get("1", ()), "fallback_rule_id")
@@ -160,6 +162,8 @@ def r05_1(ctx):
             for full in consistent_assignments(assign, ["E", "X", "C", "Z"]):
                 if full["E"] and full["X"]:
                     continue  # the statement is silent for an exclusion of nothing
+                if not consistent_with(other, full, canon):
+                    continue
                 rows += 1
                 want = "primary" if ((full["Z"] and full["E"]) or (full["X"] and not full["C"]) or ((not full["X"]) and full["C"])) else ("fallback" if not full["Z"] else "none")
                 got = "primary" if primary else "fallback" if fallback else "none" if none else "?"
